@@ -592,6 +592,7 @@ func (ctx *actorContext) ActorOf(provider ActorProvider, configurator ...ActorDe
 	}
 
 	// 创建上下文
+	parent := ctx
 	ctx, refBinder := newActorContext(ctx, provider, descriptor)
 
 	// 初始化分发器及邮箱
@@ -618,6 +619,13 @@ func (ctx *actorContext) ActorOf(provider ActorProvider, configurator ...ActorDe
 	ctx.deliverySystemMessage(ref, ref, ctx.parentRef, nil, onLaunch)
 
 	ctx.setExpireDuration()
+
+	// a parent that is terminating has already told its children to stop, and a terminated one will never wait for
+	// anybody again: a child created from then on is stopped at once, otherwise the termination in progress would wait
+	// for it for ever (Shutdown would hang) or the child would outlive its parent and stay registered
+	if parent.status.Load() >= actorStatusTerminating {
+		parent.Terminate(ref, parent.gracefullyTerminated)
+	}
 	return ref
 }
 
